@@ -2,6 +2,7 @@
 From Coq Require Import List Bool Arith.
 From Piko Require Import Stream.WsConn Stream.Pipe Stream.CopyPair
                          StreamP.WsConnP StreamP.PipeP StreamP.CopyPairP StreamP.StreamThms StreamP.PipeLive.
+From Piko Require Import Stream.HalfClose StreamP.HalfCloseP.
 Import ListNotations.
 
 (* "Bytes written at one end ... arrive at the other end exactly once, in order and unmodified, for every
@@ -151,6 +152,18 @@ Theorem C07_pair_streams :
   /\ (tb s = Reading -> e_recv (cy s) = e_out (cx s) ++ e_in (cy s)).
 Proof. exact pair_streams. Qed.
 
+(* ... "and releases both legs" is what is lost when the copier that forwards the client's bytes only shuts down the writing
+   side of the service connection at the end of its copy (the seeded change C07-11 in agent/tcpproxy): the client sends three
+   bytes and closes, the service has received them and seen end-of-stream but neither closes nor writes - the variant pair
+   (Stream/HalfClose.v) is stuck with neither connection closed and copier B still in its Read, whereas the real pair, given
+   the copiers' remaining moves, ends with both legs released. *)
+Theorem C07_half_close_variant_refuted :
+  (exists s, run_hc (init nat) hc_acts = Some s /\ stuck_hc s = true /\ final s = false /\
+             e_lclosed (cy s) = false /\ e_lclosed (cx s) = false /\ is_done (tb s) = false /\ e_out (cy s) = [1; 2; 3]) /\
+  (exists s, run (init nat) (hc_acts ++ [ACopier Y 1 false; ACopier Y 1 false]) = Some s /\ stuck s = true /\ final s = true /\
+             e_out (cy s) = [1; 2; 3]).
+Proof. exact (conj half_close_refuted real_pair_releases). Qed.
+
 Print Assumptions C07_read_stream.
 Print Assumptions C07_read_natural.
 Print Assumptions C07_write_read_roundtrip.
@@ -158,3 +171,4 @@ Print Assumptions C07_two_hops.
 Print Assumptions C07_two_hops_live.
 Print Assumptions C07_close_propagates.
 Print Assumptions C07_pair_streams.
+Print Assumptions C07_half_close_variant_refuted.
